@@ -66,7 +66,7 @@ func runC13(res *vh.Result) {
 	}
 	ncases := vh.Tiered(1000, 15000)
 	res.Cases(ncases, func(ci int, rng *vh.Rng) {
-		fs, err := vh.StartFull(vh.FullOpts{SMFs: 2, GNBs: 2})
+		fs, err := vh.StartFull(vh.FullOpts{SMFs: 3, GNBs: 2}) // SMF 2 is never associated: the take-over target
 		if err != nil {
 			res.Inconc("start: " + err.Error())
 			return
@@ -83,21 +83,37 @@ func runC13(res *vh.Result) {
 		viol := func(sig, desc string) {
 			res.Violate(ci, "C13:"+sig, fmt.Sprintf("op %d (%s): %s", len(ops)-1, ops[len(ops)-1].K, desc), map[string]interface{}{"ops": ops})
 		}
-		for _, s := range fs.SMFs {
+		for i, s := range fs.SMFs {
 			s.SetOnReport(func(d *vh.Datagram) vh.ReportAction { return vh.ReportAction{SEID: 1} })
+			if i == 2 {
+				continue
+			}
 			if err := fs.Associate(s); err != nil {
 				res.Inconc("associate: " + err.Error())
 				return
 			}
 		}
+		takenOver := false
 		var sess []*c13Sess
 		incs := 0
 		capacity := -1
 		serial := uint32(0)
 		interesting := 0
+		gone := map[int]bool{} // SMFs whose node id was renamed away by a take-over
+		pickSMF := func() int {
+			for {
+				n := rng.Intn(2)
+				if !gone[n] {
+					return n
+				}
+				if gone[0] && gone[1] {
+					return 2
+				}
+			}
+		}
 		establish := func() *c13Sess {
 			incs++
-			s := &c13Sess{inc: incs, smf: rng.Intn(2), cp: uint64(0x200 + incs), alive: true,
+			s := &c13Sess{inc: incs, smf: pickSMF(), cp: uint64(0x200 + incs), alive: true,
 				pdr: map[uint16]*c13PDR{}, far: map[uint32]*c13FAR{}, qfi: map[uint32]uint8{}, q: map[uint16][][]byte{}}
 			var rules []vh.Rule
 			for q := uint32(1); q <= 2; q++ {
@@ -310,6 +326,27 @@ func runC13(res *vh.Result) {
 				}
 				s.alive = false
 			default:
+				// a new SMF (fresh node id) takes the session over: notifications must follow the new owner. Only
+				// when the old node owns no other live session (which sessions move would otherwise be open).
+				others := 0
+				for _, x := range live {
+					if x.smf == s.smf && x != s {
+						others++
+					}
+				}
+				if !takenOver && others == 0 && s.smf != 2 && rng.Bool() {
+					op.K = "takeover"
+					ops = append(ops, op)
+					seq := smf.NextSeq()
+					if _, err := fs.Request(smf, 0, vh.BuildMsg(vh.MModReq, &s.up, seq, vh.NodeIDv4(fs.SMFs[2].IP)), seq, true); err != nil {
+						res.Inconc("request: " + err.Error())
+						return
+					}
+					takenOver = true
+					gone[s.smf] = true
+					s.smf = 2
+					break
+				}
 				op.K = "est"
 				ops = append(ops, op)
 				if establish() == nil {
